@@ -92,6 +92,20 @@ def run(tier, seed, replay=None):
             (_pre + "{a[0]: f()}[1]", "i:0", "key of a map literal: " + _what), (_pre + "map[int64]int64{a[0]: f()}[1]", "i:0", "key of a typed map literal: " + _what),
             (_pre + "[a[0], f(), a[0]]", "[i:1,i:0,i:10]", "elements of a list literal are evaluated in order: " + _what),
         ]
+    # a store at index len that cannot be completed (the grown slice has nowhere to be assigned to) is an error that leaves the
+    # source unchanged - also the spare capacity it shares with the target
+    for _mk, _show in (("a = [1, 2, 3]", "[i:1,i:2,i:3]"), ("a = make([]int64, 3)", "other:[]int64:[0 0 0]")):
+        detached += [
+            (_mk + "; func f() { return a[0:1] }; r = \"ok\"; try { f()[1] = 9 } catch e { r = \"E\" }; [r, a]", "[s:45," + _show + "]", "a store at index len into the slice a function returned"),
+            (_mk + "; v = a[0:1]; r = \"ok\"; try { v[0:1][1] = 9 } catch e { r = \"E\" }; [r, a]", "[s:45," + _show + "]", "a store at index len into a slice expression"),
+            (_mk + "; v = a[0:1]; r = \"ok\"; try { (v[0:1])[1] = 9 } catch e { r = \"E\" }; [r, a]", "[s:45," + _show + "]", "... in parentheses"),
+            (_mk + "; v = a[0:1]; r = \"ok\"; try { (true ? v : v)[1] = 9 } catch e { r = \"E\" }; [r, a]", "[s:45," + _show + "]", "a store at index len into a ternary"),
+        ]
+    detached += [
+        ("a = [1, 2, 3]; v = a[0:1]; v[1] = 9; [a, v]", "[[i:1,i:9,i:3],[i:1,i:9]]", "a store at index len into a variable appends within the shared capacity, as Go's append does"),
+        ("a = [1, 2, 3]; m = {\"v\": a[0:1]}; m.v[1] = 9; [a, m.v]", "[[i:1,i:9,i:3],[i:1,i:9]]", "... into a map entry"),
+        ("a = [1, 2, 3]; l = [a[0:1]]; (l[0])[1] = 9; [a, l[0]]", "[[i:1,i:9,i:3],[i:1,i:9]]", "... into a parenthesised element"),
+    ]
     # three-index slices: 0 <= lo <= hi <= max <= cap(a) as in Go, the capacity of the source counts, not its length
     detached += [
         ("a = [1, 2, 3, 4, 5]; b = a[0:2]; c = b[0:1:4]; c += [9, 8, 7]; [a, c]", "[[i:1,i:9,i:8,i:7,i:5],[i:1,i:9,i:8,i:7]]",
